@@ -40,6 +40,7 @@ type vbSess struct {
 	name   string
 	addr   string
 	params bgp.SessionParameters
+	sm     *vbSM
 	ads    []*bgp.Advertisement
 	closed bool
 	sets   int
@@ -50,19 +51,37 @@ func (s *vbSess) Set(ads ...*bgp.Advertisement) error {
 	if s.closed {
 		panic("Set on a closed session")
 	}
+	if s.sm != nil && s.sm.failSet > 0 {
+		s.sm.failSet--
+		return fmt.Errorf("injected Session.Set failure")
+	}
 	s.ads = append([]*bgp.Advertisement(nil), ads...)
 	s.sets++
 	return nil
 }
 
-type vbSM struct{ sessions []*vbSess }
+// failNew / failSet / failBFD: number of upcoming calls that fail (only the directed failure scenarios set them)
+type vbSM struct {
+	sessions                  []*vbSess
+	failNew, failSet, failBFD int
+}
 
 func (m *vbSM) NewSession(_ log.Logger, a bgp.SessionParameters) (bgp.Session, error) {
-	s := &vbSess{name: a.SessionName, addr: a.PeerAddress, params: a}
+	if m.failNew > 0 {
+		m.failNew--
+		return nil, fmt.Errorf("injected NewSession failure")
+	}
+	s := &vbSess{name: a.SessionName, addr: a.PeerAddress, params: a, sm: m}
 	m.sessions = append(m.sessions, s)
 	return s, nil
 }
-func (m *vbSM) SyncBFDProfiles(map[string]*config.BFDProfile) error { return nil }
+func (m *vbSM) SyncBFDProfiles(map[string]*config.BFDProfile) error {
+	if m.failBFD > 0 {
+		m.failBFD--
+		return fmt.Errorf("injected SyncBFDProfiles failure")
+	}
+	return nil
+}
 func (m *vbSM) SyncExtraInfo(string) error                          { return nil }
 func (m *vbSM) SetEventCallback(func(interface{}))                  {}
 
